@@ -324,6 +324,11 @@ func lifeMain(p LifeParams) {
 				}
 				pending = nil
 				resumed = P.seq
+				if vrt.Choose(2, true, "commit-between-two-re-open-attempts") == 1 {
+					// (a successful save while the re-open loop sleeps: the loop carries on)
+					e.Stream.Save()
+					hist = append(hist, "save")
+				}
 			}
 		}
 		grow := func() {
